@@ -452,7 +452,8 @@ class Plugin:
     RUN_MODULE = "C12.Run"
     GEN = ["Profile"]
     DEPENDS = []
-    CLAUSES = {1: "all_or_nothing", 2: "kept_alive", 3: "failure_reported", 4: "loop_yields", 5: "clean_shutdown"}
+    CLAUSES = {1: "all_or_nothing", 2: "kept_alive", 3: "failure_reported", 4: "loop_yields", 5: "clean_shutdown",
+               6: "clean_residual", 7: "yields_residual"}
     SHARD = 40
     SEARCH_CASES = 1500
     HEADER = "Local Open Scope Z_scope."
